@@ -1,6 +1,7 @@
 import KcpVerif.Lemmas.Sched
 import KcpVerif.Lemmas.SchedSource
 import KcpVerif.Lemmas.SchedLive
+import KcpVerif.Lemmas.SchedFair
 /-!
 C17 — timed scheduler: every task runs exactly once, never early.
 
@@ -309,5 +310,72 @@ example : ∃ why, obsRun ObsState.init [.put 1 100 0, .put 2 5 1, .exec 2 7, .f
 /-- a step that is NOT enabled: draining an empty channel (this is the hang `drained` prevents) -/
 example : wstep .async 5 (Worker.mk (.stopped 0 false) [⟨1, 9⟩] ⟨none, none⟩ false 0 0) .drain = none := by
   decide
+
+end KcpVerif.Props
+
+/-! ### liveness under fairness (second round) -/
+namespace KcpVerif.Props
+open KcpVerif KcpVerif.Sched
+
+/-- **exactly once — the full claim** `C17_exactly_once_full`, proved: in every infinite run of the
+    transition system (both timer modes, any `k ≥ 1`, any interleaving) in which submissions
+    eventually pause, every action that stays enabled is eventually taken (weak fairness of the
+    producers' notify, of prepend, of each worker; the runtime eventually fires a due timer) and
+    time diverges, every submitted task is eventually executed — exactly once.
+    The argument is a variant that decreases with every scheduler/runtime step once the clock has
+    passed the last deadline (`Lemmas/SchedFair.lean`); before that point no state-based ranking
+    exists because of the `v = ts` spin, which only the divergence of time ends. -/
+theorem C17_exactly_once : C17_exactly_once_full := by
+  intro m k t0 hk r n t ht
+  obtain ⟨N0, hN0⟩ := r.putsPause
+  have hrun : IsRun m k t0 r.st r.lab := ⟨r.start, r.next⟩
+  obtain ⟨N2, hN2, hq⟩ := hrun.eventually_quiescent hk hN0 r.fair r.fairFire r.timeDiverges
+  refine ⟨N2, ?_⟩
+  have ht2 : t ∈ (r.st N2).sub := by
+    have h1 := hrun.sub_mono (Nat.le_max_left n N2) ht
+    have hle : N0 ≤ max n N2 := Nat.le_trans hN2 (Nat.le_max_right n N2)
+    rw [hrun.sub_fixed hN0 hle, ← hrun.sub_fixed hN0 hN2] at h1
+    exact h1
+  have hone := C17_exactly_one_place (hrun.reach N2) t ht2
+  simpa [hq] using hone
+
+/-- … and from some point on NOTHING is pending any more, for ever (all submitted tasks are in
+    `done`, the observable log ends in an accepted `end`) -/
+theorem C17_eventually_all_done {m : Mode} {k : Nat} {t0 : Time} (hk : 0 < k) (r : FairRun m k t0) :
+    ∃ N, ∀ n, N ≤ n → pendingTasks (r.st n) = [] ∧
+      ∀ t, t ∈ (r.st n).sub → ((r.st n).done.map (·.task)).count t = 1 := by
+  obtain ⟨N0, hN0⟩ := r.putsPause
+  have hrun : IsRun m k t0 r.st r.lab := ⟨r.start, r.next⟩
+  obtain ⟨N2, hN2, hq⟩ := hrun.eventually_quiescent hk hN0 r.fair r.fairFire r.timeDiverges
+  refine ⟨N2, fun n hn => ?_⟩
+  have hpend : pendingTasks (r.st n) = [] := by
+    -- no Put after N2: `sub` is fixed, `done` only grows, so the number of pending tasks cannot grow
+    have hl2 := pending_length (hrun.reach N2)
+    have hln := pending_length (hrun.reach n)
+    rw [hrun.sub_fixed hN0 (Nat.le_trans hN2 hn), ← hrun.sub_fixed hN0 hN2] at hln
+    have hdone : (r.st N2).done.length ≤ (r.st n).done.length := by
+      clear hln
+      induction hn with
+      | refl => exact Nat.le_refl _
+      | step hle ih =>
+        exact Nat.le_trans ih (step_noput (r.next _) (hN0 _ (Nat.le_trans hN2 hle))).2
+    rw [hq] at hl2
+    simp only [List.length_nil, Nat.zero_add] at hl2
+    exact List.eq_nil_of_length_eq_zero (by omega)
+  refine ⟨hpend, fun t ht => ?_⟩
+  have hone := C17_exactly_one_place (hrun.reach n) t ht
+  simpa [hpend] using hone
+
+/-- **bounded work after the last deadline**: once the clock has passed every submitted deadline
+    (`D < now`), ANY schedule without new `Put`s — fair or not — contains at most `mu D s` steps of
+    the scheduler and the runtime (`mu`: 3·pend + 2·[token] + [prepend has the token] + 3·|pre| +
+    2·|batch| + Σ workers (heap size + a constant ≤ 7)); all that can happen afterwards is the
+    passing of time.  Together with `C17_no_deadlock` (a step is enabled while a task is pending):
+    a schedule that never idles while a step is enabled completes every task within `mu D s`
+    steps. -/
+theorem C17_bounded_work {m : Mode} {k : Nat} {t0 D : Time} {s s' : State} {ls : List Label}
+    (h : Reachable m k t0 s) (hD : D < s.now) (hsub : ∀ t, t ∈ s.sub → t.ts ≤ D) (hnp : NoPut ls)
+    (hr : run m s ls = some s') : nonTicks ls + mu D s' ≤ mu D s :=
+  bounded_work h hD hsub hnp hr
 
 end KcpVerif.Props
